@@ -103,7 +103,8 @@ func symDAG(K int) []vnode {
 			return r
 		}
 		var subject *ocispec.Descriptor
-		if (refchain && i >= 2) || (!refchain && verifrt.Bool()) {
+		// (the Docker schema 2 formats have no subject field: content.Successors rightly ignores one)
+		if kind != kindDockerManifest && kind != kindDockerList && ((refchain && i >= 2) || (!refchain && verifrt.Bool())) {
 			// subject: any lower manifest-kind node
 			var cands []int
 			for j := 0; j < i; j++ {
